@@ -24,7 +24,17 @@ ResolveTable == [part |-> "resolve",
 \* pinned tracks a model assertion can express: one component, not a risk name, not empty
 ModelTracks == <<"t1", "2.0", "latest", "b1">>
 Olds == << <<"">>, <<"t1", "stable">>, <<"edge">>, <<"2.0", "edge", "b1">> >>
+\* directed extra: pinned tracks that have other tracks as proper string prefixes / extensions, and
+\* requests with a leading slash (first component empty); component-wise the answer is plain
+XTracks == << <<"t10">>, <<"t1.1">>, <<"t1">>, <<"t">>, <<"2.0">> >>
+XFirst == <<"t", "t1", "t10", "t1.1", "t1-x", "2", "2.0", "">>
+XNews == [k \in 1..(4 * Len(XFirst)) |->
+            LET f == XFirst[((k - 1) \div 4) + 1] v == (k - 1) % 4 IN
+            CASE v = 0 -> <<f>> [] v = 1 -> <<f, "stable">> [] v = 2 -> <<f, "edge", "b1">> [] v = 3 -> <<"", f, "stable">>]
 PinnedTable == [part |-> "pinned",
+                xnews |-> XNews,
+                xrows |-> [t \in 1..Len(XTracks) |->
+                             [track |-> XTracks[t], res |-> [k \in 1..Len(XNews) |-> ResolvePinned(XTracks[t], XNews[k])]]],
                 news |-> [j \in 1..N3 |-> Dom[j]],
                 rows |-> [t \in 1..N2 |-> [track |-> Dom[t], res |-> [j \in 1..N3 |-> ResolvePinned(Dom[t], Dom[j])]]],
                 rc   |-> [t \in 1..(Len(ModelTracks) + 1) |->
